@@ -208,6 +208,100 @@ theorem trusted_not_refused (ka : Bytes) (rest : List Bytes) (tn rn : Bytes) (cs
     trustOf (ka :: rest) (sealTicket ka tn rn cs) rn = some true :=
   C05.trusted_not_refused ka rest tn rn cs hka htn ⟨hrn, hw, hd⟩
 
+/-! ### `Add` succeeds, concretely: "any field values ⇒ Add succeeds ⇒ verifies" -/
+
+/-- a third-party caveat can always be encoded: its fields are byte strings -/
+theorem tpEncodable_bytes : TpEncodable Bytes := by
+  intro t loc vk ticket
+  simp [Crypto.macCav, encodable]
+
+/-- at byte level "can be MACed under any key" is "can be encoded" (`encodable`: everything except an
+unregistered caveat that lost its body, at any wrapper depth) -/
+theorem macCav_isSome_iff (t : Bytes) (c : Cav Bytes) : (Crypto.macCav t c).isSome = encodable c := by
+  simp only [Crypto.macCav]
+  cases encodable c <;> rfl
+
+/-- `add_succeeds` for the byte-level model, every premise explicit: the token is not a finalised
+proof; every caveat of the token and every plain argument is `encodable`; no plain argument is an
+attestation (unless the token is a proof) or wraps one; the new third-party locations are pairwise
+different and not among `locs3P` of the token.  Then `Add` returns nil. -/
+theorem add_succeeds (m : Mac Bytes) (items : List (AddItem Bytes))
+    (hf : (m.nonce.proof && !m.newProof) = false)
+    (hem : ∀ c ∈ m.cavs, encodable c = true) (hei : ∀ c, AddItem.plain c ∈ items → encodable c = true)
+    (hp : ∀ c, AddItem.plain c ∈ items → (c.isAttestation && !m.nonce.proof) = false ∧ c.wrapsAttestation = false)
+    (hnd : (newLocs items).Nodup) (hfr : ∀ l ∈ newLocs items, l ∉ locs3P m.cavs) :
+    (add m items).2 = none := by
+  apply C05.add_succeeds tpEncodable_bytes m items hf _ hp hnd hfr
+  simp only [allEncodable, List.all_append, List.all_map, Bool.and_eq_true, List.all_eq_true]
+  constructor
+  · intro c hc; rw [macCav_isSome_iff]; exact hem c hc
+  · intro it hi
+    cases it with
+    | plain c => simp only [Function.comp, AddItem.asCav]; rw [macCav_isSome_iff]; exact hei c hi
+    | new3p loc ticket rn nonce => exact tpEncodable_bytes m.tail loc Crypto.empty ticket
+
+/-- on a legitimate byte-level token the call succeeds and the result is legitimate: ordinary encodable
+caveats of any kinds and values, fresh third-party caveats (12-byte VerifierKey nonce) for new,
+pairwise different locations -/
+theorem legit_add_succeeds (k : Bytes) (m : Mac Bytes) (hL : Legit k m) (items : List (AddItem Bytes))
+    (hit : ∀ it ∈ items, LegitItem it) (hei : ∀ c, AddItem.plain c ∈ items → encodable c = true)
+    (hnd : (newLocs items).Nodup) (hfr : ∀ l ∈ newLocs items, l ∉ locs3P m.cavs) :
+    (add m items).2 = none ∧ Legit k (add m items).1 :=
+  C05.legit_add_succeeds tpEncodable_bytes k m hL items hit
+    (fun c hc t => by rw [macCav_isSome_iff]; exact hei c hc) hnd hfr
+
+/-- `legit_add_then_verifies` for the byte-level model -/
+theorem legit_add_then_verifies (k : Bytes) (m : Mac Bytes) (hL : Legit k m) (items : List (AddItem Bytes))
+    (hit : ∀ it ∈ items, LegitItem it) (hei : ∀ c, AddItem.plain c ∈ items → encodable c = true)
+    (hnd : (newLocs items).Nodup) (hfr : ∀ l ∈ newLocs items, l ∉ locs3P m.cavs)
+    (dms : List (Mac Bytes)) (tr : Bytes → List Bytes) (dbs : List (Mac Bytes × Bool))
+    (h : Aligned (GoodDischarge k (add m items).1 dms tr) (secrets k (add m items).1) dbs) :
+    (add m items).2 = none ∧
+    verify k (add m items).1 dms tr =
+      .ok ((add m items).1.cavs.filter (kept true) ++ (dbs.map contrib).flatten) :=
+  C05.legit_add_then_verifies tpEncodable_bytes k m hL items hit
+    (fun c hc t => by rw [macCav_isSome_iff]; exact hei c hc) hnd hfr dms tr dbs h
+
+/-- `firstParty_history_verifies` for the byte-level model: mint under any key and nonce format, any
+number of `Add` calls with ordinary encodable caveats of any registered kinds and field values —
+real msgpack, real HMAC chain: every call succeeds and the token verifies, yielding the added
+caveats in order of addition with equal ENCODINGS collapsed -/
+theorem firstParty_history_verifies (k kid loc rnd : Bytes) (ver : Nat) (calls : List (List (Cav Bytes)))
+    (hall : ∀ cs ∈ calls, ∀ c ∈ cs, ordinary c = true ∧ encodable c = true)
+    (dms : List (Mac Bytes)) (tr : Bytes → List Bytes) :
+    Legit k (addAll (mintV k kid loc rnd ver false) calls) ∧
+    (addAll (mintV k kid loc rnd ver false) calls).cavs = collapse [] calls.flatten ∧
+    verify k (addAll (mintV k kid loc rnd ver false) calls) dms tr = .ok (collapse [] calls.flatten) :=
+  C05.firstParty_history_verifies tpEncodable_bytes k kid loc rnd ver calls
+    (fun cs hcs c hc => ⟨(hall cs hcs c hc).1, fun t => by rw [macCav_isSome_iff]; exact (hall cs hcs c hc).2⟩) dms tr
+
+/-- `history_verifies` for the byte-level model: mint under any key and nonce format, any number of `Add`
+calls with ordinary `encodable` caveats (no third-party caveat inside a wrapper) and fresh third-party
+caveats (12-byte VerifierKey nonces) for pairwise different locations: every call succeeds, and with
+one good discharge per third-party caveat the token verifies — real msgpack, HMAC chain and AEAD -/
+theorem history_verifies (k kid loc rnd : Bytes) (ver : Nat) (calls : List (List (AddItem Bytes)))
+    (hit : ∀ its ∈ calls, ∀ it ∈ its, LegitItem it ∧ noInner3P it)
+    (hei : ∀ its ∈ calls, ∀ c, AddItem.plain c ∈ its → encodable c = true)
+    (hnd : (newLocs calls.flatten).Nodup)
+    (dms : List (Mac Bytes)) (tr : Bytes → List Bytes) (dbs : List (Mac Bytes × Bool))
+    (h : Aligned (GoodDischarge k (addCalls (mintV k kid loc rnd ver false) calls) dms tr)
+      (secrets k (addCalls (mintV k kid loc rnd ver false) calls)) dbs) :
+    Legit k (addCalls (mintV k kid loc rnd ver false) calls) ∧
+    verify k (addCalls (mintV k kid loc rnd ver false) calls) dms tr =
+      .ok ((addCalls (mintV k kid loc rnd ver false) calls).cavs.filter (kept true) ++ (dbs.map contrib).flatten) :=
+  C05.history_verifies tpEncodable_bytes k kid loc rnd ver calls hit
+    (fun its hi c hc t => by rw [macCav_isSome_iff]; exact hei its hi c hc) hnd dms tr dbs h
+
+/-- the same history is legitimate (hence: its tail is a key, every VerifierKey opens, hops are the identity …) -/
+theorem history_is_legit (k kid loc rnd : Bytes) (ver : Nat) (calls : List (List (AddItem Bytes)))
+    (hit : ∀ its ∈ calls, ∀ it ∈ its, LegitItem it ∧ noInner3P it)
+    (hei : ∀ its ∈ calls, ∀ c, AddItem.plain c ∈ its → encodable c = true)
+    (hnd : (newLocs calls.flatten).Nodup) :
+    Legit k (addCalls (mintV k kid loc rnd ver false) calls) :=
+  legit_addCalls tpEncodable_bytes k calls _ (.minted kid loc rnd ver) hit
+    (fun its hi c hc t => by rw [macCav_isSome_iff]; exact hei its hi c hc)
+    (by simpa [mintV, locs3P, getCaveats] using hnd)
+
 /-! ### wire hops: what the next holder decodes is what the previous holder encoded (C05, C02, C11) -/
 
 /-- the bytes `Encode` writes for a token state -/
@@ -485,6 +579,47 @@ example := legit_attenuate_from_bytes [1, 2, 3, 4, 5] sm0 (.minted [1] [] [2] 1)
       rw [macNonce_length]; decide⟩, by decide, by decide⟩ [.plain sc] (by
     intro it hit; simp only [List.mem_singleton] at hit; subst hit; exact .plain _ rfl)
 
+-- `add_succeeds` / `legit_add_succeeds` / `firstParty_history_verifies` at byte level: a resource set, a
+-- conditional and a fresh third-party caveat on the sample token; a two-call history
+example := add_succeeds sm0 [.plain sc, .new3p [9] [1, 2, 3] rn vn] (by rfl) (by intro c hc; cases hc)
+  (by intro c hc; simp only [List.mem_cons, List.not_mem_nil, or_false, AddItem.plain.injEq, reduceCtorEq] at hc
+      subst hc; decide)
+  (by intro c hc; simp only [List.mem_cons, List.not_mem_nil, or_false, AddItem.plain.injEq, reduceCtorEq] at hc
+      subst hc; exact ⟨rfl, rfl⟩)
+  (by decide) (by intro l hl; simp [sm0, mint, locs3P, getCaveats])
+example := legit_add_succeeds [1, 2, 3, 4, 5] sm0 (.minted [1] [] [2] 1) [.plain sc, .new3p [9] [1, 2, 3] rn vn]
+  (by
+    intro it hit
+    simp only [List.mem_cons, List.not_mem_nil, or_false] at hit
+    rcases hit with rfl | rfl
+    · exact .plain _ rfl
+    · exact .new3p _ _ _ _ ((okNonce_iff vn).mpr (by decide)))
+  (by intro c hc; simp only [List.mem_cons, List.not_mem_nil, or_false, AddItem.plain.injEq, reduceCtorEq] at hc
+      subst hc; decide)
+  (by decide) (by intro l hl; simp [sm0, mint, locs3P, getCaveats])
+example := firstParty_history_verifies [1, 2, 3, 4, 5] [1] [] [2] 0
+  [[sc, .ifPresent false (.cons (.volumes [([0x61], 3)]) .nil) 1], [.validityWindow 0 9223372036854775807, sc]]
+  (by intro cs hcs c hc; exact ⟨by revert c; revert cs; decide, by revert c; revert cs; decide⟩) [] (fun _ => [])
+
+example := history_is_legit [1, 2, 3, 4, 5] [1] [] [2] 1
+  [[.plain sc, .new3p [9] [1, 2, 3] rn vn], [.new3p [8] [4, 5] rn vn, .plain (.action 1)]]
+  (by
+    intro its hits it hit
+    simp only [List.mem_cons, List.not_mem_nil, or_false] at hits
+    rcases hits with rfl | rfl <;> simp only [List.mem_cons, List.not_mem_nil, or_false] at hit <;>
+      rcases hit with rfl | rfl
+    · exact ⟨.plain _ rfl, rfl⟩
+    · exact ⟨.new3p _ _ _ _ ((okNonce_iff vn).mpr (by decide)), trivial⟩
+    · exact ⟨.new3p _ _ _ _ ((okNonce_iff vn).mpr (by decide)), trivial⟩
+    · exact ⟨.plain _ rfl, rfl⟩)
+  (by
+    intro its hits c hc
+    simp only [List.mem_cons, List.not_mem_nil, or_false] at hits
+    rcases hits with rfl | rfl <;>
+      simp only [List.mem_cons, List.not_mem_nil, or_false, AddItem.plain.injEq, reduceCtorEq, false_or, or_false] at hc <;>
+      subst hc <;> decide)
+  (by decide)
+
 /-- a finalised proof at byte level: a discharge minted under `rn` and encoded once -/
 def sp : Mac Bytes := encodeState (mint rn [7, 7, 7] [9] [2] true)
 theorem sp_wireable : Wireable sp := by
@@ -523,6 +658,14 @@ end Macaroon.Props.Concrete
 #print axioms Macaroon.Props.Concrete.attenuation_monotone
 #print axioms Macaroon.Props.Concrete.box_nonce_injective
 #print axioms Macaroon.Props.Concrete.sealTicket_nonce_injective
+#print axioms Macaroon.Props.Concrete.tpEncodable_bytes
+#print axioms Macaroon.Props.Concrete.macCav_isSome_iff
+#print axioms Macaroon.Props.Concrete.add_succeeds
+#print axioms Macaroon.Props.Concrete.legit_add_succeeds
+#print axioms Macaroon.Props.Concrete.legit_add_then_verifies
+#print axioms Macaroon.Props.Concrete.firstParty_history_verifies
+#print axioms Macaroon.Props.Concrete.history_verifies
+#print axioms Macaroon.Props.Concrete.history_is_legit
 #print axioms Macaroon.Props.Concrete.wire_hop
 #print axioms Macaroon.Props.Concrete.legit_hop
 #print axioms Macaroon.Props.Concrete.legit_attenuate_from_bytes
